@@ -45,6 +45,15 @@ def make_jobs(ck, want_c10=False):
     rnd.shuffle(cases)
     cases = cases[:cap]
     jobs = []
+    # larger TLC-simulated datasets (N <= 12, 3 groups, 3 feature values): many more iterations without the LP step, where the
+    # order in which predictors are first used differs from the order in which they were created
+    sim = ck.tlc("Moments", M.cfg(12, 3, 1, 3, True, mode="table", laws=(), sim=True), "simulate larger payoff tables (N<=12 G=3 F=3)", workers=1,
+                 simulate="num=%d" % (10 if ck.quick else 60), depth=12, timeout=1500)
+    for c in [c for c in sim.emitted if len(c["rows"]) >= 6]:
+        for j in range(2):
+            conf = (M.KINDS[rnd.randrange(5)], rnd.randrange(3), rnd.choice([0.02, 0.05, 0.2]), rnd.choice([10, 20, 40]), rnd.random() < 0.25,
+                    rnd.choice([0.5, 2.0]), rnd.choice([1e-6, 1e-3]), rnd.randrange(2))
+            jobs.append((c, conf, ck.seed, want_c10))
     for c in cases:
         for j in range(per):
             kind = M.KINDS[(j + rnd.randrange(5)) % 5]
